@@ -4,7 +4,7 @@ package statedb
 // Every frame of a tree runs the interpreter contract (hx/sdbtree_interp.go) at one of three host addresses and
 // performs, in program order: calls of stateful precompile methods (ERC-20 transfer / approve / transferFrom /
 // burn / burnFrom of two tokens, staking delegate / undelegate / withdrawReward), SSTOREs, LOGs, CREATEs, value
-// transfers, SELFDESTRUCT of a victim contract, warmth probes (gas cost of SLOAD / BALANCE written to storage),
+// transfers, zero-value calls of empty accounts (touched: deleted at commit), SELFDESTRUCT of a victim contract, warmth probes (gas cost of SLOAD / BALANCE written to storage),
 // and child frames; a frame ends by RETURN, REVERT, INVALID or by running out of gas.  The generator repeats ONE
 // favourite method (same contract, same selector) over sibling and nested frames with mixed outcomes.
 //
@@ -61,6 +61,7 @@ type treeEnv struct {
 	hosts   []common.Address
 	rcpt    []common.Address
 	victims []common.Address
+	empties []common.Address // existing accounts with nothing in them: a zero-value call "touches" them (EIP-161)
 	uni     []common.Address
 	tokens  []common.Address
 	denoms  []string
@@ -96,7 +97,8 @@ func newTreeEnv(t *testing.T, side *Sidecar) *treeEnv {
 	}
 	x.rcpt = []common.Address{common.HexToAddress("0x1000000000000000000000000000000000000b01"), common.HexToAddress("0x1000000000000000000000000000000000000b02")}
 	x.victims = []common.Address{common.HexToAddress("0x1000000000000000000000000000000000000d01"), common.HexToAddress("0x1000000000000000000000000000000000000d02")}
-	x.uni = append(append(append([]common.Address{}, x.hosts...), x.rcpt...), x.victims...)
+	x.empties = []common.Address{common.HexToAddress("0x1000000000000000000000000000000000000a11"), common.HexToAddress("0x1000000000000000000000000000000000000a12")}
+	x.uni = append(append(append(append([]common.Address{}, x.hosts...), x.rcpt...), x.victims...), x.empties...)
 	x.denoms = []string{c.Denom(), "utwo"}
 	for i := 1; i <= 2; i++ {
 		x.vals = append(x.vals, c.S.ValidatorAccounts.Number(i).GetValidatorAddress())
@@ -140,6 +142,11 @@ func newTreeEnv(t *testing.T, side *Sidecar) *treeEnv {
 func (x *treeEnv) rearm() {
 	c := x.c
 	ctx := c.Ctx()
+	for _, e := range x.empties {
+		if !c.App.AccountKeeper.HasAccount(ctx, e.Bytes()) {
+			c.App.AccountKeeper.SetAccount(ctx, c.App.AccountKeeper.NewAccountWithAddress(ctx, e.Bytes()))
+		}
+	}
 	var missing []common.Address
 	for _, v := range x.victims {
 		if len(c.App.EvmKeeper.GetCode(ctx, c.App.EvmKeeper.GetCodeHash(ctx, v.Bytes()))) == 0 {
@@ -208,8 +215,10 @@ func (g *treeGen) newLeaf(like *treeLeaf) *treeLeaf {
 			l.method = "undelegate"
 		case k < 93:
 			l.method = "withdrawReward"
-		case k < 97:
+		case k < 96:
 			l.method = "value"
+		case k < 98:
+			l.method = "touch"
 		default:
 			l.method = "victim"
 		}
@@ -237,6 +246,8 @@ func (g *treeGen) newLeaf(like *treeLeaf) *treeLeaf {
 		l.b, l.amt = g.pick(x.rcpt), Bi(int64(1+g.r.Intn(200)))
 	case "victim":
 		l.b = g.pick(x.victims)
+	case "touch":
+		l.b = g.pick(x.empties)
 	}
 	return l
 }
@@ -275,6 +286,8 @@ func (l *treeLeaf) item(x *treeEnv) TreeItem {
 		it.Target, it.Gas, it.Value = l.b, 30_000, byte(l.amt.Int64())
 	case "victim":
 		it.Target, it.Gas = l.b, 60_000
+	case "touch":
+		it.Target, it.Gas = l.b, 30_000
 	}
 	return it
 }
@@ -309,7 +322,7 @@ func (g *treeGen) frame(depth int, root bool, parent *TreeFrame) *TreeFrame {
 			} else {
 				l = g.newLeaf(nil)
 			}
-			if g.fav == nil && l.method != "value" && l.method != "victim" {
+			if g.fav == nil && l.method != "value" && l.method != "victim" && l.method != "touch" {
 				g.fav = l
 			}
 			l.bit, l.frame = len(g.leaves), f
@@ -664,7 +677,7 @@ func runTrees(t *testing.T, side *Sidecar, r0 *Rng, n int) {
 		}
 		repeated, lostPattern, leakPattern := false, false, false
 		for k, ft := range per {
-			if k == "value" || k == "victim" || len(ft.frames) < 2 {
+			if k == "value" || k == "victim" || k == "touch" || len(ft.frames) < 2 {
 				continue
 			}
 			if ft.alive && ft.dead {
